@@ -789,7 +789,13 @@ class StubsStringGenerator:
                     has_named_type = True
 
             if len(literal_data) >= 2:
-                all_literals = [literal_type for literal in literal_data for literal_type in literal["literals"]]
+                # Union items have to be unique: a value that several of the literal types hold is written once (1 and
+                # True are different values)
+                all_literals: list = []
+                for literal in literal_data:
+                    for literal_value in literal["literals"]:
+                        if not any(type(it) is type(literal_value) and it == literal_value for it in all_literals):
+                            all_literals.append(literal_value)
 
                 # We overwrite the old types of the union with the joined literal types
                 type_data["types"] = other_type_data
